@@ -115,7 +115,7 @@ func genC12(r *Rng, tier string, idx int) *Program {
 	// long delays: a task stays parked at one site (a slow remote call, a lock
 	// holder that is not scheduled) while the others run on
 	if r.Chance(0.5) {
-		sites := []string{"client:list:done", "client:list:done:L1", "client:list:done:L0", "client:write:done", "client:open:done", "client:list", "client:write", "client:",
+		sites := []string{"client:list:done", "client:list:done:L1", "client:list:done:L0", "client:write:done", "client:open:done", "client:list", "client:write", "client:", "pos:", "pos:",
 			"db:", "replica:", "snapshot:", "compact:", "ckpt:", "phase:", "sql:", ""}
 		for i := 0; i < r.Range(1, 2); i++ {
 			p.Holds = append(p.Holds, Hold{Task: r.Range(1, nt), Site: PickOf(r, sites), Nth: r.Range(1, 6), Len: r.Range(20, 150)})
